@@ -362,7 +362,7 @@ func (pr *progRender) render() string {
 				for _, idx := range permFor(s.Order, len(topts), ts.Unit) {
 					parts = append(parts, topts[idx]())
 				}
-				return n.cff + ".Task(\n\t\t\t" + strings.Join(parts, ",\n\t\t\t") + ",\n\t\t)"
+				return n.cff + fmt.Sprintf(".Task( // %s unit %d\n\t\t\t", s.Name, ts.Unit) + strings.Join(parts, ",\n\t\t\t") + ",\n\t\t)"
 			})
 		}
 		if s.InstrumentD {
@@ -688,7 +688,43 @@ func RenderFileAs(f *FileSpec, pkgAuto bool, regSuffix string) (src, side string
 		x.sb.WriteString(b)
 		x.sb.WriteString("\n")
 	}
-	return x.sb.String(), side, extFns
+	src = x.sb.String()
+	// implied -auto-instrument names: "<file>.<line of the task's function expression>"
+	for _, s := range f.Progs {
+		s.AutoNames = nil
+		if s.Kind != "flow" {
+			continue
+		}
+		// Observed behaviour of cff (not covered by a listed property, see
+		// DESIGN.md section 0): -auto-instrument only applies to tasks that are
+		// listed AFTER the cff.InstrumentFlow option, because the option list
+		// is processed in order. The model follows the tool here.
+		instrLine := -1
+		inProg := false
+		for i, line := range strings.Split(src, "\n") {
+			if strings.HasPrefix(line, "// "+s.Name+" runs one generated") {
+				inProg = true
+			}
+			if inProg && instrLine < 0 && strings.Contains(line, fmt.Sprintf("%q", rt.DirName(s))) {
+				instrLine = i
+			}
+		}
+		for i, line := range strings.Split(src, "\n") {
+			var unit int
+			if instrLine < 0 || i < instrLine {
+				continue
+			}
+			if idx := strings.Index(line, "// "+s.Name+" unit "); idx >= 0 {
+				if _, err := fmt.Sscanf(line[idx:], "// "+s.Name+" unit %d", &unit); err == nil {
+					if s.AutoNames == nil {
+						s.AutoNames = map[int]string{}
+					}
+					s.AutoNames[unit] = fmt.Sprintf("%s.%d", f.Name, i+2) // i is 0-based; the expression is on the next line
+				}
+			}
+		}
+	}
+	return src, side, extFns
 }
 
 // SideSource wraps the out-of-line declarations of a program file (top-level
